@@ -114,6 +114,7 @@ func init() {
 				old := st
 				X.trailUndo(func() { X.pools[p] = old })
 				X.pools[p] = append([]value(nil), st[:n-1]...)
+				poolGet(v)
 				return v, true
 			}
 			newf := *poolNewField(p)
@@ -133,6 +134,7 @@ func init() {
 			if it, ok := args[1].(iface); ok && it.t == nil {
 				return nil, true
 			}
+			poolPut(args[1])
 			old := X.pools[p]
 			X.trailUndo(func() { X.pools[p] = old })
 			X.pools[p] = append(append([]value(nil), old...), args[1])
@@ -165,6 +167,33 @@ func init() {
 			logAccess(args[0].(*value), true, true)
 			tstore(args[0].(*value), args[1])
 			return nil, true
+		},
+		"time.Now": func(fr *frame, args []value) (value, bool) {
+			if Sched == nil {
+				return nil, false
+			}
+			return virtualTime(clockNow()), true
+		},
+		"time.Since": func(fr *frame, args []value) (value, bool) {
+			if Sched == nil {
+				return nil, false
+			}
+			t := args[0].(structure)
+			ext, _ := termOf(t[1])
+			return mkVal(types.Int64, TBin(OpSub, TBin(OpAdd, clockNow(), TConst(64, 1)), ext)), true
+		},
+		"time.Sleep": func(fr *frame, args []value) (value, bool) {
+			if Sched == nil {
+				return nil, true
+			}
+			timeSleep(args[0])
+			return nil, true
+		},
+		"(time.Time).IsZero": func(fr *frame, args []value) (value, bool) {
+			t := args[0].(structure)
+			w, _ := termOf(t[0])
+			e, _ := termOf(t[1])
+			return mkVal(types.Bool, TAnd(TEq(w, TConst(64, 0)), TEq(e, TConst(64, 0)))), true
 		},
 		"fmt.Sprintf":  opaqueString,
 		"fmt.Sprint":   opaqueString,
@@ -674,4 +703,9 @@ func DomainDescription() string {
 	}
 	fmt.Fprintf(&sb, "%d runes in %d ranges (D_q closed under simple case maps)", n, len(RuneDomain))
 	return sb.String()
+}
+
+// virtualTime builds a time.Time whose ext field carries the virtual instant + 1 (never zero).
+func virtualTime(now *Term) value {
+	return structure{uint64(0), mkVal(types.Int64, TBin(OpAdd, now, TConst(64, 1))), (*value)(nil)}
 }
